@@ -234,7 +234,7 @@ def sigOf (c : Char) : Option (List Arg) :=
   | 'H' | 'V' => some [.num]
   | 'C' => some [.num, .num, .num, .num, .num, .num]
   | 'S' | 'Q' => some [.num, .num, .num, .num]
-  | 'A' => some [.nonneg, .nonneg, .num, .flag, .flag, .num, .num]
+  | 'A' => some [.num, .num, .num, .flag, .flag, .num, .num]   -- SVG 2: radii are numbers (sign allowed, |r| is used)
   | 'Z' => some []
   | _ => none
 
